@@ -454,8 +454,54 @@ def _fit_default(A):
 task_float_intervals.contract_fn = "heavy.MathOperations.mul_spline_curve"
 
 
+# --------------------------------------------------------------------------------------
+# float knots FAR from the origin relative to the span lengths, everything dyadic (knots, parameters, control points are exactly representable, so the float run gets
+# exactly the inputs of the exact run): evaluation, basis functions, insertion and elevation agree with the exact run to 1e-12 - the textbook formulas lose nothing here,
+# a rearrangement like node / width - start / width loses 7 digits
+# --------------------------------------------------------------------------------------
+def task_shifted_dyadic():
+    fn = "C16:shifted-dyadic"
+    out = []
+    off = F(2 ** 23)
+    U = [off] * 3 + [off + F(3, 8), off + F(1), off + F(21, 16)] + [off + F(2)] * 3
+    P = [F(1), F(-3, 2), F(5, 4), F(2), F(-1, 2), F(3)]
+    us = [off + F(k, 64) for k in (0, 7, 24, 45, 64, 70, 84, 100, 127, 128)]
+
+    def run(conv):
+        res = {}
+        c = Curve([conv(u) for u in U], [conv(q) for q in P])
+        res["eval"] = [c(conv(u)) for u in us]
+        f = functions.Function(knotspace.KnotVector([conv(u) for u in U]))
+        res["basis"] = [x for u in us for j in (1, 2) for x in f[:, j](conv(u))]
+        d = Curve([conv(u) for u in U], [conv(q) for q in P])
+        d.knot_insert([conv(off + F(1, 2)), conv(off + F(3, 2))])
+        res["insert"] = list(d.ctrlpoints) + [d(conv(u)) for u in us]
+        e = Curve([conv(u) for u in U], [conv(q) for q in P])
+        e.degree_increase(1)
+        res["elevate"] = list(e.ctrlpoints) + [e(conv(u)) for u in us]
+        return res
+    try:
+        exact, flt = run(lambda v: v), run(float)
+        err = None
+    except Exception as e:
+        exact, flt, err = {}, {}, "%s: %s" % (type(e).__name__, str(e)[:120])
+    for name in ("eval", "basis", "insert", "elevate"):
+        bad = err
+        if not bad:
+            a, b = [float(x) for x in exact[name]], [float(x) for x in flt[name]]
+            dev = max(abs(x - y) / max(1.0, abs(x)) for x, y in zip(a, b)) if len(a) == len(b) else float("inf")
+            if dev > 1e-12:
+                bad = "float run deviates from the exact run by %.1e (relative) on dyadic data at offset 2^23" % dev
+        out.append(ob("%s:agrees-with-exact[%s]" % (fn, name), fn, FAILED if bad else PROVED, "B", "concrete", 0.0,
+                      bad or "float and exact runs agree to 1e-12 on dyadic knots, parameters and points at offset 2^23", dict(kind="c16.shifted", op=name) if bad else None))
+    return out + [{"_stats": dict(cases=len(out))}]
+
+
+task_shifted_dyadic.contract_fn = "functions.FunctionEvaluator"
+
+
 def tasks(tier, seed):
-    return [(task_exact, (v,)) for v in VECTORS] + [(task_points, ()), (task_linalg, ()), (task_int_data, ()), (task_float_intervals, ())]
+    return [(task_exact, (v,)) for v in VECTORS] + [(task_points, ()), (task_linalg, ()), (task_int_data, ()), (task_float_intervals, ()), (task_shifted_dyadic, ())]
 
 
 def replay(o):
@@ -465,6 +511,9 @@ def replay(o):
         r = [x for x in task_int_data() if "id" in x and x["id"].endswith(tag)][0]
         return r["status"] == FAILED, "only int / Fraction numbers and the same function", r["detail"]
     w = o["witness"]
+    if w["kind"] == "c16.shifted":
+        r = [x for x in task_shifted_dyadic() if "id" in x and x["id"].endswith("[%s]" % w["op"])][0]
+        return r["status"] == FAILED, "float and exact runs agree to 1e-12 on dyadic data far from the origin", r["detail"]
     if w["kind"] == "c16.interval":
         r = [x for x in task_float_intervals() if "id" in x and x["id"].endswith("[%s,%s,%s]" % (w["a"], w["b"], w["case"]))][0]
         return r["status"] == FAILED, "works on the float interval and agrees with the exact computation", r["detail"]
